@@ -1,5 +1,6 @@
 import Tpp.Model.Palette
 import Tpp.Model.Encoder
+import Tpp.Model.Printers
 /-!
 C19 – 256-colour indices are a bijection onto their palette ranges.
 Over the offset and coefficients regenerated from `ansi/graphics.hpp`, in the C++ arithmetic
@@ -62,6 +63,14 @@ theorem C19_wire_high (r g b : Fin 6) :
 theorem C19_wire_grey (s : Fin 24) :
     fgParams (Colour.ofGrey (b24 s)) = [38, 5, 232 + s.val] ∧ bgParams (Colour.ofGrey (b24 s)) = [48, 5, 232 + s.val] := by
   simp [Colour.ofGrey, fgParams, bgParams, (C19_grey s).1]
+
+/-- the streamed form (`out << colour`) of a palette colour shows its components / its shade in decimal – `#rgb` and
+    `#NN` – whatever number base or adjustment the stream is in, so the triple and the shade are recovered from it -/
+theorem C19_streamed :
+    (∀ r g b : Fin 6, showHighColour (encodeHigh (b6 r) (b6 g) (b6 b))
+        = [0x23, UInt8.ofNat (48 + r.val), UInt8.ofNat (48 + g.val), UInt8.ofNat (48 + b.val)]) ∧
+    (∀ s : Fin 24, showGreyColour (encodeGrey (b24 s)) = [0x23, UInt8.ofNat (48 + s.val / 10), UInt8.ofNat (48 + s.val % 10)]) := by
+  constructor <;> decide +kernel
 
 -- non-vacuity / sanity: the last cube entry and the last shade
 example : encodeHigh 5 5 5 = 231 ∧ encodeGrey 23 = 255 ∧ highGreen 231 = 5 := by decide
